@@ -209,8 +209,10 @@ Proof.
   split; [split; [discriminate|cbn; lia]|]. vm_compute. split; reflexivity.
 Qed.
 
-(* the correspondence check accepts a faithful observation and rejects the edits named in the design: tail batch
-   dropped, metadata of another batch, frame applied after the chain *)
+(* the two levels of the correspondence check.  c02_check (property level) accepts a faithful observation and ANY other way of
+   batching the same rows, and rejects the edits named in the design: tail batch dropped, metadata of another batch, frame
+   applied after the chain, results differing from the one-shot ones; c02_corr (correspondence level) additionally pins the
+   batch boundaries and the batch-size value of the impl-model *)
 Example c02_check_discriminates :
   let mk upd res := {|
     c2_guesses := None; c2_model := MValue; c2_prec := F64; c2_step := None;
@@ -218,9 +220,13 @@ Example c02_check_discriminates :
                    r2_chain := [PCumsum]; r2_setting := BInt 2; r2_itemsize := 1; r2_obs_bs := Some 2%Z |}];
     c2_obs_updates := upd; c2_obs_processed := length (concat upd); c2_res_shape := [1; 1]; c2_obs_results := [res];
     c2_disc := DMaxabs; c2_obs_scores := None; c2_one_results := [Fin 1 0]; c2_one_scores := None |} in
-  c02_check (mk [[([2; 5], [5]); ([5; 11], [6])]; [([8; 17], [7])]]%Z (Fin 1 0)) = true
+  let good := mk [[([2; 5], [5]); ([5; 11], [6])]; [([8; 17], [7])]]%Z (Fin 1 0) in
+  let other_batching := mk [[([2; 5], [5])]; [([5; 11], [6]); ([8; 17], [7])]]%Z (Fin 1 0) in
+  c02_check good = true /\ c02_corr good = true
+  /\ c02_check other_batching = true /\ c02_corr other_batching = false                             (* internal only *)
   /\ c02_check (mk [[([2; 5], [5]); ([5; 11], [6])]]%Z (Fin 1 0)) = false                           (* tail dropped *)
   /\ c02_check (mk [[([2; 5], [5]); ([5; 11], [6])]; [([8; 17], [5])]]%Z (Fin 1 0)) = false         (* wrong metadata *)
   /\ c02_check (mk [[([3; 6], [5]); ([9; 15], [6])]; [([15; 24], [7])]]%Z (Fin 1 0)) = false        (* frame after chain *)
+  /\ c02_check (mk [[([2; 5], [5]); ([5; 11], [6])]; []; [([8; 17], [7])]]%Z (Fin 1 0)) = false     (* empty batch *)
   /\ c02_check (mk [[([2; 5], [5]); ([5; 11], [6])]; [([8; 17], [7])]]%Z (Fin 3 (-1))) = false.     (* results differ *)
 Proof. vm_compute. repeat split; reflexivity. Qed.
